@@ -56,10 +56,10 @@ func customC15(r *Run) ([]Crash, error) {
 			continue
 		}
 		off := shapes.SigOffset(sig, 6)
-		o := shapes.EmitOpts{Prims: shapes.SignedPrims(), Offset: off, LowerTags: i%2 == 1}
+		o := shapes.EmitOpts{Prims: shapes.SignedPrims(), Offset: off, LowerTags: i%2 == 1, TagStyle: (i / 2) % 3}
 		full := fmt.Sprintf("%s@%d", sig, off)
 		if o.LowerTags {
-			full += "t"
+			full += []string{"t", "tu", "ts"}[o.TagStyle]
 		}
 		srcs = append(srcs, shapes.Src{Name: fmt.Sprintf("c%05d", i), Type: "T", Sig: full, Code: shapes.Source(f, o)})
 	}
